@@ -16,7 +16,8 @@ pub const FLOORS: &[&str] = &[
     "continue:refused", "stepped:BR_taken", "stepped:BR_untaken", "stepped:JMP", "stepped:RET",
     "stepped:JSR", "stepped:JSRR", "stepped:CALL", "stepped:in_recursion", "si_beyond_end",
     "end:detached_halt", "end:exit_command", "stack_on", "stack_off", "fixed", "random", "long_running",
-    "more_than_65536_instructions_between_pauses", "breakpoint_by_label_offset",
+    "more_than_65536_instructions_between_pauses", "breakpoint_by_label_offset", "reset_or_goto_between_steps",
+    "step_into_after_leaving_the_final_halt", "resumed_after_reset_with_breakpoints",
 ];
 
 pub struct Fixed {
@@ -332,6 +333,25 @@ fn random_case(seed: u64, i: u64) -> CaseOut {
         }
         out.class("breakpoint_by_label_offset");
     }
+    // stepping starts from wherever the machine stands: `reset` and `goto` between the stepping commands
+    // (also while parked on the final HALT, and with run-time breakpoints in place)
+    if rng.chance(1, 2) {
+        for _ in 0..1 + rng.below(3) {
+            let c = if rng.bool() { Cmd::Reset } else { Cmd::Goto(img.origin().wrapping_add(rng.below(img.words.len().max(1) as u64) as u16)) };
+            let at = rng.below(cmds.len() as u64 + 1) as usize;
+            cmds.insert(at, c);
+            // and a stepping command right behind it, more often than not
+            if rng.chance(2, 3) {
+                let s = match rng.below(4) {
+                    0 => Cmd::Step,
+                    1 => Cmd::Continue,
+                    _ => Cmd::StepInto(*rng.pick(&[0u32, 1, 1, 2, 3, 5])),
+                };
+                cmds.insert(at + 1, s);
+            }
+        }
+        out.class("reset_or_goto_between_steps");
+    }
     let lines = script_lines(&cmds, seed ^ i);
     let sep = *rng.pick(&[";", "\n", "\n", "mix"]);
     out.class("random");
@@ -339,6 +359,20 @@ fn random_case(seed: u64, i: u64) -> CaseOut {
     let checked = run_and_verify(&mut out, "C10", i, &text, stack, &cmds, &lines, sep, &built.input, false, &img.breaks);
     if let (Some(sess), Some(stats)) = (&checked.sess, &checked.stats) {
         finish(&mut out, sess, stats, &cmds, i, &text, &lines);
+        // where did a `reset`/`goto` find the machine, and what came next?
+        for (ci, c) in cmds.iter().enumerate() {
+            if !matches!(c, Cmd::Reset | Cmd::Goto(_)) {
+                continue;
+            }
+            let Some(s) = sess.snaps.get(ci) else { break };
+            let w = s.mem_diff.iter().find(|(a, _)| *a == s.pc).map(|(_, w)| *w).unwrap_or(sess.init_mem[s.pc as usize]);
+            if w == 0xF025 && matches!(cmds.get(ci + 1), Some(Cmd::StepInto(_))) && sess.snaps.len() > ci + 2 {
+                out.class("step_into_after_leaving_the_final_halt");
+            }
+            if !s.bps.is_empty() && matches!(c, Cmd::Reset) && sess.snaps.len() > ci + 2 {
+                out.class("resumed_after_reset_with_breakpoints");
+            }
+        }
     }
     out
 }
